@@ -30,7 +30,13 @@ def run_variant(v):
     d = tempfile.mkdtemp(prefix='pyx-sa-')
     try:
         _copy_tree(d)
-        edits = v.get('edits') or [(v['file'], v['old'], v['new'])]
+        if v.get('patch'):
+            pr = subprocess.run(['patch', '-p1', '-s', '-d', d, '-i', v['patch']], capture_output=True, text=True)
+            if pr.returncode != 0:
+                return dict(v, outcome='not-applicable', detail='patch does not apply to this tree: ' + (pr.stdout + pr.stderr)[:120])
+            edits = []
+        else:
+            edits = v.get('edits') or [(v['file'], v['old'], v['new'])]
         for f, old, new in edits:
             p = os.path.join(d, f)
             strip = lambda t: '\n'.join(l.rstrip() for l in t.split('\n'))
@@ -59,9 +65,26 @@ def run_variant(v):
         shutil.rmtree(d, ignore_errors=True)
 
 
+def seeded_variants(prop):
+    '''confirmed seeded mutations (from independent sub-agents) that this property's check is recorded to detect'''
+    import glob
+    import json
+    out = []
+    base = os.path.join(os.path.dirname(HERE), 'seeded')
+    for d in sorted(glob.glob(os.path.join(base, '*'))):
+        mp = os.path.join(d, 'meta.json')
+        if not os.path.exists(mp):
+            continue
+        meta = json.load(open(mp))
+        if prop in meta.get('detected_by', {}):
+            out.append(dict(id='seeded-' + os.path.basename(d), prop=prop, patch=os.path.join(d, 'patch.diff'), expect='fire', rule=prop + '-',
+                            what='seeded mutation against %s' % meta.get('breaks_property')))
+    return out
+
+
 def run_for(prop, jobs=16):
     from .selftest_variants import VARIANTS
-    vs = [v for v in VARIANTS if v['prop'] == prop]
+    vs = [v for v in VARIANTS if v['prop'] == prop] + seeded_variants(prop)
     with concurrent.futures.ThreadPoolExecutor(max_workers=jobs) as ex:
         return list(ex.map(run_variant, vs))
 
